@@ -380,6 +380,13 @@ class OneWay:
                     os.mkfifo(full)
             except OSError:
                 pass
+        for p, q in case.get("dst_hardlinks") or []:
+            # a second name inside the destination for the inode of a file about to be replaced (a rotated log kept with
+            # `ln`): it is outside the plan, so whatever happens to the planned path must not show through it
+            try:
+                os.link(os.path.join(self.dst, p), os.path.join(self.dst, q))
+            except OSError:
+                pass
         for side, p in case.get("readonly") or []:
             try:
                 os.chmod(os.path.join(self.src if side == "src" else self.dst, p), 0o444)
@@ -1019,6 +1026,10 @@ def c09_scenarios(rng=None):
     S["300K-over-older-tmpdir-on-another-fs"] = dict(S["300K-over-older"], envv="tmpdir-other-fs")
     S["four-files-delete-tmpdir-on-another-fs"] = dict(S["four-files-delete"], envv="tmpdir-other-fs")
     k3m = (k700 * 5)[:3 * 1024 * 1024 + 5000]
+    # a file that only GREW at its end (a log, a journal): the destination holds a 1.25 MiB strict prefix of the 3 MiB
+    # source, and a second name for that old inode which is nobody's to touch; and the reverse, a file that shrank
+    S["grown-file-prefix-1.25M-of-3M-with-a-hard-link"] = dict(src={"logs/journal.log": (k3m, new), "k": (b"k", new)}, dst={"logs/journal.log": (k3m[:1310720], old)}, delete=False, dst_hardlinks=[("logs/journal.log", "logs/journal.log.0")])
+    S["shrunk-file-3M-to-its-first-1.25M"] = dict(src={"logs/journal.log": (k3m[:1310720], new)}, dst={"logs/journal.log": (k3m, old)}, delete=False)
     S["3M-over-older"] = dict(src={"big3": (k3m, new), "k": (b"k", new)}, dst={"big3": (k3m[:4096][::-1], old)}, delete=False)
     S["700K-over-older-delete"] = dict(src={"big7": (k700, new), "k": (b"k", new)}, dst={"big7": (k700[:1000], old), "stale/x": (b"s", old)}, delete=True)
     return S
@@ -1036,7 +1047,7 @@ def _c09_worker(args):
         name, direction = jobs[idx]
         if name in scen:
             sc = scen[name]
-            case = {"src": sc["src"], "dst": sc["dst"], "states": {}, "flags": {"delete": sc["delete"], "excludes": [], "jobs": 2, "verbose": False}, "direction": direction, "dstname": "dst", "srcname": "src", "dst_exists": True, "readonly": sc.get("readonly", []), "envv": sc.get("envv")}
+            case = {"src": sc["src"], "dst": sc["dst"], "states": {}, "flags": {"delete": sc["delete"], "excludes": [], "jobs": 2, "verbose": False}, "direction": direction, "dstname": "dst", "srcname": "src", "dst_exists": True, "readonly": sc.get("readonly", []), "envv": sc.get("envv"), "dst_hardlinks": sc.get("dst_hardlinks", [])}
         else:
             rng = SplitMix.derive(seedv, "c09", name)
             case = gen_case(rng, direction, {"clash": False, "max_files": 4, "hostile_roots": False, "leftover": False})
